@@ -142,7 +142,7 @@ package client
 //@   inline
 //@   opt trackend = 1
 //@   safety [C20] index nil alloc allocbound
-//@   loop 0 invariant 0 <= i && i <= count && m != nil && readn(r, 2 * i) && sinceloop(len(m.PushDatas) == old(len(m.PushDatas)) + i)
+//@   loop 0 invariant 0 <= _i && _i <= count && m != nil && readn(r, 2 * _i) && sinceloop(len(m.PushDatas) == old(len(m.PushDatas)) + _i)
 //@   loop 0 invariant sinceloop(forall(k, 0, i, len(m.PushDatas[old(len(m.PushDatas)) + k]) == tokval(r, old(rpos(r)) + 2*k)
 //@        && (len(m.PushDatas[old(len(m.PushDatas)) + k]) > 0 ==> blob(m.PushDatas[old(len(m.PushDatas)) + k]) == tokval(r, old(rpos(r)) + 2*k + 1))))
 //@   loop 0 invariant sinceloop(oldblobs() && oldrowsExcept(m.PushDatas, arr(old(m.PushDatas))) && (arr(m.PushDatas) == arr(old(m.PushDatas)) || fresharr(m.PushDatas)))
@@ -160,7 +160,7 @@ package client
 //@   inline
 //@   opt trackend = 1
 //@   safety [C20] index nil alloc allocbound
-//@   loop 0 invariant 0 <= i && i <= count && m != nil && readn(r, 2 * i) && sinceloop(len(m.PushDatas) == old(len(m.PushDatas)) + i)
+//@   loop 0 invariant 0 <= _i && _i <= count && m != nil && readn(r, 2 * _i) && sinceloop(len(m.PushDatas) == old(len(m.PushDatas)) + _i)
 //@   loop 0 invariant sinceloop(forall(k, 0, i, len(m.PushDatas[old(len(m.PushDatas)) + k]) == tokval(r, old(rpos(r)) + 2*k)
 //@        && (len(m.PushDatas[old(len(m.PushDatas)) + k]) > 0 ==> blob(m.PushDatas[old(len(m.PushDatas)) + k]) == tokval(r, old(rpos(r)) + 2*k + 1))))
 //@   loop 0 invariant sinceloop(oldblobs() && oldrowsExcept(m.PushDatas, arr(old(m.PushDatas))) && (arr(m.PushDatas) == arr(old(m.PushDatas)) || fresharr(m.PushDatas)))
@@ -180,10 +180,10 @@ package client
 //@   inline
 //@   opt trackend = 1
 //@   safety [C20] index nil alloc allocbound
-//@   loop 0 invariant 0 <= i && i <= count && m != nil && len(m.Path) == count && readn(r, i)
+//@   loop 0 invariant 0 <= _i && _i <= count && m != nil && len(m.Path) == count && readn(r, _i)
 //@   loop 0 invariant sinceloop(forall(k, 0, i, m.Path[k] == decode(tokval(r, old(rpos(r)) + k), bitcoin.Hash32)))
 //@   loop 0 invariant sinceloop(same(m.Path, m.Index) && oldrowsExcept(m.Path, arr(m.Path)))
-//@   loop 1 invariant 0 <= i && i <= count && m != nil && len(m.DuplicatedIndexes) == count && readn(r, i)
+//@   loop 1 invariant 0 <= _i && _i <= count && m != nil && len(m.DuplicatedIndexes) == count && readn(r, _i)
 //@   loop 1 invariant sinceloop(forall(k, 0, i, m.DuplicatedIndexes[k] == tokval(r, old(rpos(r)) + k)))
 //@   loop 1 invariant sinceloop(same(m.Path, m.Index, m.BlockHeader, m.DuplicatedIndexes) && oldrowsExcept(m.DuplicatedIndexes, arr(m.DuplicatedIndexes)))
 //@   ensures prefix_fails: [C15] hitend(r) ==> result != nil
